@@ -317,6 +317,13 @@ pub fn gen_iso(seed: u64, backend: Backend, entry: Entry, thorough: bool) -> Iso
             }
         }
     }
+    if r.chance(25, 100) {
+        let frag = seq::foreign_base_motif(&mut r, n_clients, entry);
+        let at = r.below(ops.len() as u64 + 1) as usize;
+        for (i, o) in frag.into_iter().enumerate() {
+            ops.insert(at + i, o);
+        }
+    }
     IsoPlan {
         seed,
         backend,
@@ -357,7 +364,13 @@ pub fn exec_iso(plan: &IsoPlan) -> RunOut {
     let mut accepted = 0;
     let mut foreign_quotes = 0u64;
     for op in &plan.ops {
-        let req = crate::ops::concretise(plan.seed, &full.model, plan.n_clients, op);
+        let mut req = crate::ops::concretise(plan.seed, &full.model, plan.n_clients, op);
+        if let Some(Req::CreateClient { c }) = &req {
+            // storage contract: new_client only for a client that does not exist yet
+            if full.model.client(c).is_some() {
+                req = None;
+            }
+        }
         match req {
             None => {
                 full.step(op, &mut out);
